@@ -853,6 +853,117 @@ def syn_nonneg(t, depth=0):
     return False
 
 
+class FieldInt(SymInt):
+    """a non-negative integer known as a sum of disjoint bit fields
+    sum(term_i << shift_i), 0 <= term_i < 2**width_i.  Bit operations with
+    constants that respect the field boundaries stay linear (no div/mod on
+    the whole value); anything else falls back to SymInt."""
+    __slots__ = ('fields',)
+
+    def __init__(self, fields):
+        fs = sorted([f for f in fields], key=lambda f: f[1])
+        t = z3.IntVal(0)
+        for term, sh, w in fs:
+            t = t + term * (1 << sh)
+        SymInt.__init__(self, z3.simplify(t))
+        self.fields = fs
+
+    @staticmethod
+    def of_bytes(terms_le):
+        """little-endian list of byte terms"""
+        return FieldInt([(b, 8 * k, 8) for k, b in enumerate(terms_le)])
+
+    def _wrap(self, fields):
+        fields = [f for f in fields if not (
+            z3.is_int_value(f[0]) and f[0].as_long() == 0)]
+        if not fields:
+            return 0
+        r = FieldInt(fields)
+        if z3.is_int_value(r.t):
+            return r.t.as_long()
+        return r
+
+    def __and__(s, o):
+        if isinstance(o, int) and not isinstance(o, bool) and o >= 0:
+            out = []
+            for term, sh, w in s.fields:
+                m = (o >> sh) & ((1 << w) - 1)
+                if m == 0:
+                    continue
+                if m == (1 << w) - 1:
+                    out.append((term, sh, w))
+                else:
+                    sub = SymInt(term) & m
+                    out.append((toint(sub), sh, w))
+            return s._wrap(out)
+        return SymInt.__and__(s, o)
+    __rand__ = __and__
+
+    def __rshift__(s, k):
+        if isinstance(k, int) and k >= 0:
+            out = []
+            for term, sh, w in s.fields:
+                if sh >= k:
+                    out.append((term, sh - k, w))
+                elif sh + w <= k:
+                    continue
+                else:
+                    d = k - sh
+                    out.append((z3.simplify(term / (1 << d)), 0, w - d))
+            return s._wrap(out)
+        return SymInt.__rshift__(s, k)
+
+    def __lshift__(s, k):
+        if isinstance(k, int) and k >= 0:
+            return s._wrap([(t, sh + k, w) for t, sh, w in s.fields])
+        return SymInt.__lshift__(s, k)
+
+    def _ranges(s):
+        return [(sh, sh + w) for _t, sh, w in s.fields]
+
+    def __add__(s, o):
+        if isinstance(o, FieldInt):
+            ok = all(b1 <= a2 or b2 <= a1 for a1, b1 in s._ranges()
+                     for a2, b2 in o._ranges())
+            if ok:
+                return s._wrap(s.fields + o.fields)
+        if isinstance(o, int) and not isinstance(o, bool) and o >= 0:
+            free = all(((o >> a) & ((1 << (b - a)) - 1)) == 0
+                       for a, b in s._ranges())
+            if free:
+                extra = []
+                j = 0
+                while (o >> j):
+                    if (o >> j) & 1:
+                        k = j
+                        while (o >> k) & 1:
+                            k += 1
+                        extra.append((z3.IntVal((o >> j) & (
+                            (1 << (k - j)) - 1)), j, k - j))
+                        j = k
+                    else:
+                        j += 1
+                return s._wrap(s.fields + extra)
+        return SymInt.__add__(s, o)
+    __radd__ = __add__
+
+    def __xor__(s, o):
+        if isinstance(o, int) and not isinstance(o, bool) and o >= 0:
+            out = []
+            rest = o
+            for term, sh, w in s.fields:
+                m = (o >> sh) & ((1 << w) - 1)
+                rest &= ~(((1 << w) - 1) << sh)
+                if m == 0:
+                    out.append((term, sh, w))
+                else:
+                    out.append((toint(SymInt(term) ^ m), sh, w))
+            r = s._wrap(out)
+            return r + rest if rest else r
+        return SymInt.__xor__(s, o)
+    __rxor__ = __xor__
+
+
 def zmin(a, b):
     return z3.If(a <= b, a, b)
 
